@@ -1234,3 +1234,164 @@ pub fn gen_c05(r: &mut Rng) -> (String, Sim) {
     );
     (class, sim)
 }
+
+// ---------------------------------------------------------------------------
+// C07: insertions of traffic that must have no effect
+
+/// A frame that the property says must be ignored by port `p` in the current state of `sim`.
+pub fn ignorable_frame(r: &mut Rng, sim: &Sim, w: &mut World, p: usize) -> (Ev, &'static str) {
+    let own = sim.icfg.clock_identity;
+    let t = w.now + r.below(1000) as u128;
+    let parent = sim.parent;
+    let stranger = (0x6600_0000_0000_0000u64 + r.below(3), 1u16);
+    let mut kind;
+    let ev = loop {
+        let slave = sim.states.get(p).copied() == Some(9);
+        let roll = if slave && r.chance(3, 5) { 6 + r.below(6) } else { r.below(12) };
+        match roll {
+            0 => {
+                kind = "domain";
+                let mut f = w.announce_frame(0, &[]);
+                w.masters[0].seq = w.masters[0].seq.wrapping_sub(1); // do not disturb the base sequence
+                f[4] = f[4].wrapping_add(1 + r.below(200) as u8);
+                break Ev::RecvGeneral(p, f);
+            }
+            1 => {
+                kind = "sdo";
+                let mut h = w.hdr(SYNC, parent.0, parent.1, r.next() as u16);
+                h.sdo_id = (h.sdo_id + 1 + r.below(100) as u16) & 0xfff;
+                let (s, n) = wire_ts(t);
+                break Ev::RecvEvent(p, frame(&h, &ts10(s, n), &[]), t);
+            }
+            2 => {
+                kind = "version";
+                let mut h = w.hdr(ANNOUNCE, parent.0, parent.1, r.next() as u16);
+                h.version = *r.pick(&[0x11u8, 0x13, 0x10, 0x01, 0x2f]);
+                let a = w.masters[0].ann.clone();
+                break Ev::RecvGeneral(p, frame(&h, &announce_body(&a), &[]));
+            }
+            3 => {
+                kind = "malformed";
+                let h = w.hdr(*r.pick(&[ANNOUNCE, SYNC, FOLLOW_UP, DELAY_RESP]), parent.0, parent.1, 3);
+                let mut f = frame(&h, &[0; 30], &[]);
+                match r.below(4) {
+                    0 => f.truncate(r.below(34) as usize),
+                    1 => f[0] = (f[0] & 0xf0) | *r.pick(&[4u8, 5, 6, 7, 14, 15]),
+                    2 => {
+                        f[2] = 0;
+                        f[3] = r.below(34) as u8;
+                    }
+                    _ => f.truncate(34 + r.below(9) as usize),
+                }
+                break Ev::RecvGeneral(p, f);
+            }
+            4 => {
+                // Announce from an identity outside the acceptable master list
+                if let Some(l) = &sim.cfgs[p].acceptable {
+                    let bad = 0x6100_0000_0000_0000u64;
+                    if !l.contains(&bad) {
+                        kind = "unacceptable";
+                        let h = w.hdr(ANNOUNCE, bad, 1, r.next() as u16);
+                        let mut a = w.masters[0].ann.clone();
+                        a.prio1 = 1;
+                        break Ev::RecvGeneral(p, frame(&h, &announce_body(&a), &[]));
+                    }
+                }
+            }
+            5 => {
+                kind = "own-identity";
+                let h = w.hdr(ANNOUNCE, own, (p + 1) as u16, r.next() as u16);
+                let mut a = w.masters[0].ann.clone();
+                a.prio1 = 1;
+                break Ev::RecvGeneral(p, frame(&h, &announce_body(&a), &[]));
+            }
+            6 | 7 => {
+                kind = "sync-not-parent";
+                let mut h = w.hdr(SYNC, stranger.0, stranger.1, r.next() as u16);
+                h.flags[0] = if r.chance(1, 2) { 2 } else { 0 };
+                h.correction = corr(r);
+                let (s, n) = wire_ts(t);
+                break Ev::RecvEvent(p, frame(&h, &ts10(s, n), &[]), t);
+            }
+            8 => {
+                kind = "fup-not-parent";
+                let seq = w.masters[0].sync_seq;
+                let h = w.hdr(FOLLOW_UP, stranger.0, stranger.1, seq);
+                let (s, n) = wire_ts(t);
+                break Ev::RecvGeneral(p, frame(&h, &ts10(s, n), &[]));
+            }
+            9 => {
+                kind = "dresp-not-parent";
+                let (seq, _) = w.last_delay_req[p].clone().unwrap_or((0, vec![]));
+                let h = w.hdr(DELAY_RESP, stranger.0, stranger.1, seq);
+                let (s, n) = wire_ts(t);
+                let mut body = ts10(s, n);
+                body.extend_from_slice(&pid10(own, (p + 1) as u16));
+                break Ev::RecvGeneral(p, frame(&h, &body, &[]));
+            }
+            _ => {
+                kind = "dresp-other-requester";
+                let (seq, _) = w.last_delay_req[p].clone().unwrap_or((0, vec![]));
+                let h = w.hdr(DELAY_RESP, parent.0, parent.1, seq);
+                let (s, n) = wire_ts(t);
+                let mut body = ts10(s, n);
+                let req = if r.chance(1, 2) { (own, (p + 2) as u16) } else { (0x4200_0000_0000_0001, (p + 1) as u16) };
+                body.extend_from_slice(&pid10(req.0, req.1));
+                break Ev::RecvGeneral(p, frame(&h, &body, &[]));
+            }
+        }
+    };
+    (ev, kind)
+}
+
+pub fn gen_c07(r: &mut Rng) -> (String, String) {
+    // base history from one of the scenario generators
+    let (_, base) = match r.below(20) {
+        0..=2 => gen_mix(r),
+        3..=10 => gen_c09(r),
+        11..=14 => gen_c11(r),
+        15..=17 => gen_c14(r),
+        _ => gen_c10(r, false),
+    };
+    let mut sim2 = Sim::new(base.icfg.clone(), base.cfgs.clone());
+    let mut w = World::new(r, &sim2, 2);
+    let mut positions: Vec<usize> = Vec::new();
+    let mut kinds = std::collections::BTreeSet::new();
+    let mut states = std::collections::BTreeSet::new();
+    let evs = base.evlog.clone();
+    let rate = 1 + r.below(4);
+    for ev in evs {
+        // insert 0..2 ignorable frames before this event
+        while r.below(5) < rate && positions.len() < 40 {
+            let p = r.below(sim2.nports() as u64) as usize;
+            let (ins, kind) = ignorable_frame(r, &sim2, &mut w, p);
+            kinds.insert(kind);
+            states.insert(format!("{}{}", kind, sim2.states.get(p).copied().unwrap_or(0)));
+            positions.push(sim2.events.len());
+            if !sim2.step(ins) {
+                break;
+            }
+            w.observe(&sim2);
+            if r.chance(1, 2) {
+                break;
+            }
+        }
+        if !sim2.step(ev) {
+            break;
+        }
+        w.observe(&sim2);
+    }
+    let class = format!(
+        "c07:{}:{}:{}",
+        if sim2.panicked || base.panicked { "panic" } else { "ok" },
+        positions.len().min(9),
+        states.iter().cloned().collect::<Vec<_>>().join("+")
+    );
+    let term = format!(
+        "(mkC07 {} {} [{}])",
+        base.case_term(),
+        sim2.case_term(),
+        positions.iter().map(|x| format!("{}%nat", x)).collect::<Vec<_>>().join("; ")
+    );
+    (class, term)
+}
